@@ -9,8 +9,8 @@ selfclose-exact:    html / xhtml / xml self-closing styles give the same string 
 """
 import random
 
-from .common import Clause, run_parallel
-from .c03_tags import parse_markup, normalise, MarkupError, gen_tree, render_abbr, VOIDS, SNIPPET_VOID_TAGS
+from .common import Clause
+from .c03_tags import parse_markup, normalise, MarkupError, gen_tree, render_abbr, VOIDS, SNIPPET_VOID_TAGS, run_parallel_sorted
 
 SYNTAXES = ['html', 'xml', 'xsl', 'jsx', 'vue', 'svelte']
 
@@ -226,7 +226,7 @@ def run(tier, seed):
                 'syntaxes %r; per abbreviation: every value of one axis (rotating), comments on, format off, %d random rows' % (SYNTAXES, rows),
                 'a case is (abbreviation, syntax, option row); tags, attributes and text (white space, comments, self-closing slash '
                 'dropped) must equal those under default options', exhaustive=False)
-    run_parallel(c1, 'bounded.c12', 'check_cosmetic', cosmetic_cases(rng, nr, rows), chunk=400)
+    run_parallel_sorted(c1, 'bounded.c12', 'check_cosmetic', cosmetic_cases(rng, nr, rows), chunk=400)
     c1.done()
 
     c2 = Clause('indent-equals-depth', 'B',
@@ -235,7 +235,7 @@ def run(tier, seed):
                 'syntaxes %r, 3 option rows per abbreviation' % (SYNTAXES,),
                 'a case is (abbreviation, syntax, options); every line after the first starts with baseIndent + indent x open elements; '
                 'a closing tag line has exactly the indentation of its opening tag when that tag starts a line', exhaustive=False)
-    run_parallel(c2, 'bounded.c12', 'check_indent', indent_cases(rng, nr), chunk=400)
+    run_parallel_sorted(c2, 'bounded.c12', 'check_indent', indent_cases(rng, nr), chunk=400)
     c2.done()
 
     c3 = Clause('selfclose-exact', 'B',
@@ -243,6 +243,6 @@ def run(tier, seed):
                 'syntaxes %r, defaults + 1 random row per abbreviation' % (SYNTAXES,),
                 'a case is (abbreviation, syntax, options); the three outputs must be equal strings after deleting " /" resp. "/" before ">"',
                 exhaustive=False)
-    run_parallel(c3, 'bounded.c12', 'check_selfclose', selfclose_cases(rng, nr), chunk=400)
+    run_parallel_sorted(c3, 'bounded.c12', 'check_selfclose', selfclose_cases(rng, nr), chunk=400)
     c3.done()
     return [c1, c2, c3]
